@@ -95,20 +95,55 @@ def isResp : CallRes → Bool
   | .hang => false
   | .panic => false
   | .garbled => false
+  | .expired => false
+  | .lost _ => false
+
+/-- Did the call get as far as a live connection: answered, or — for the kinds of call that
+cannot be answered — ended the way that kind ends once it is on a connection. -/
+def served (k : CallKind) : CallRes → Bool
+  | .resp _ => true
+  | .expired => k == .zeroDeadline
+  | .lost _ => k == .peerDies
+  | .error _ _ => false
+  | .hang => false
+  | .panic => false
+  | .garbled => false
 
 /-- The clauses one observed call must satisfy, given the oracle state before it. -/
-def callClauses (outs : List Outcome) (s : St) (res : CallRes) (a' : Nat) : List (String × Bool) :=
+def callClauses (outs : List Outcome) (s : St) (k : CallKind) (res : CallRes) (a' : Nat) : List (String × Bool) :=
   [ ("definite-result",
       match res with
       | .resp _ => true
       | .error _ _ => true
+      | .expired => true
+      | .lost _ => true
       | .hang => false
       | .panic => false
       | .garbled => false),
     ("attempts-monotone", decide (s.a ≤ a')),
+    ("result-fits-the-call",
+      match res with
+      | .expired => k == .zeroDeadline
+      | .lost _ => k == .peerDies
+      | .resp _ => true
+      | .error _ _ => true
+      | .hang => true
+      | .panic => true
+      | .garbled => true),
     ("response-from-a-live-connection",
       match res with
       | .resp c => s.live == some c || (decide (s.a < c) && decide (c ≤ a') && (outcomeAt outs c).connects)
+      | .lost c => s.live == some c || (decide (s.a < c) && decide (c ≤ a') && (outcomeAt outs c).connects)
+      | .expired => true
+      | .error _ _ => true
+      | .hang => true
+      | .panic => true
+      | .garbled => true),
+    ("deadline-expiry-only-on-a-connection",
+      match res with
+      | .expired => s.live.isSome || (decide (s.a < a') && (outcomeAt outs a').connects)
+      | .resp _ => true
+      | .lost _ => true
       | .error _ _ => true
       | .hang => true
       | .panic => true
@@ -117,6 +152,8 @@ def callClauses (outs : List Outcome) (s : St) (res : CallRes) (a' : Nat) : List
       match res with
       | .error code _ => code == unavailable
       | .resp _ => true
+      | .expired => true
+      | .lost _ => true
       | .hang => true
       | .panic => true
       | .garbled => true),
@@ -124,6 +161,8 @@ def callClauses (outs : List Outcome) (s : St) (res : CallRes) (a' : Nat) : List
       match res with
       | .error _ _ => s.live.isNone && decide (s.a < a') && !anyConnects outs s.a a'
       | .resp _ => true
+      | .expired => true
+      | .lost _ => true
       | .hang => true
       | .panic => true
       | .garbled => true),
@@ -132,15 +171,21 @@ def callClauses (outs : List Outcome) (s : St) (res : CallRes) (a' : Nat) : List
       | .error _ (some k) => decide (s.a < k) && decide (k ≤ a') && !(outcomeAt outs k).connects
       | .error _ none => true
       | .resp _ => true
+      | .expired => true
+      | .lost _ => true
       | .hang => true
       | .panic => true
       | .garbled => true),
     ("call-succeeds-when-endpoint-reachable",
-      !(s.live.isSome || (outcomeAt outs (s.a + 1)).connects) || isResp res) ]
+      !(s.live.isSome || (outcomeAt outs (s.a + 1)).connects) || served k res) ]
 
-def nextSt (res : CallRes) (a' : Nat) : St :=
+/-- The oracle state after a call: which connection is up. A deadline expiry leaves the
+connection it happened on in place (the one that was up, else the one this call made). -/
+def nextSt (s : St) (res : CallRes) (a' : Nat) : St :=
   { live := match res with
       | .resp c => some c
+      | .expired => if s.live.isSome then s.live else some a'
+      | .lost _ => none
       | .error _ _ => none
       | .hang => none
       | .panic => none
@@ -151,11 +196,17 @@ def evClauses (outs : List Outcome) : St → List Op → List Ev → List (Strin
   | _, [], [] => []
   | s, .die :: ops, .die :: evs => evClauses outs { s with live := none } ops evs
   | s, .call :: ops, .call res a' :: evs =>
-    callClauses outs s res a' ++ evClauses outs (nextSt res a') ops evs
+    callClauses outs s .plain res a' ++ evClauses outs (nextSt s res a') ops evs
+  | s, .callZero :: ops, .call res a' :: evs =>
+    callClauses outs s .zeroDeadline res a' ++ evClauses outs (nextSt s res a') ops evs
+  | s, .callDie :: ops, .call res a' :: evs =>
+    callClauses outs s .peerDies res a' ++ evClauses outs (nextSt s res a') ops evs
   | _, [], _ :: _ => [("trace-shape", false)]
   | _, _ :: _, [] => [("trace-shape", false)]
   | _, .die :: _, .call _ _ :: _ => [("trace-shape", false)]
   | _, .call :: _, .die :: _ => [("trace-shape", false)]
+  | _, .callZero :: _, .die :: _ => [("trace-shape", false)]
+  | _, .callDie :: _, .die :: _ => [("trace-shape", false)]
 
 /-- The connection that is up after `a` attempts made while building the channel. -/
 def liveAfter (outs : List Outcome) (a : Nat) : Option Nat :=
